@@ -28,13 +28,17 @@ REQUIRED_CLASSES = ["tr=" + t for t in TRANSFORMS]
 ROT = [1e-4, 199.9999, 200.0, 399.9999, 100.0, 37.123456789, 0.5, 300.0]
 NAMES = ["Ž1", "bod č.7", "αβγ", "点A", "P_01", "x-y", "Q.2", "Ünï", "a b", "9", "10", "007", "Z'", "é", "ß", "Ω9",
          # spellings that a numeric comparison would merge
-         "7", "07", "+7", "7.0", "0", "00", "1e1", "010", "99999999999999999999", "99999999999999999998"]
+         "7", "07", "+7", "7.0", "0", "00", "1e1", "010", "99999999999999999999", "99999999999999999998",
+         # numbers next to names that start with digits: numeric and lexicographic order disagree (9 < 10 < 15a < 9)
+         "15a", "2b", "150", "12", "3x", "30", "100", "1a"]
 
 
 @st.composite
 def case(draw):
     tr = draw(st.sampled_from(TRANSFORMS))
-    net = draw(gen_net.determined_network(noise=1, isotropic=(tr == "frame"), allow_cov=(tr != "frame") or draw(st.booleans())))
+    # renaming / reordering: larger networks, so that containers keyed by point id hold enough ids for an ordering slip to show
+    net = draw(gen_net.determined_network(noise=1, isotropic=(tr == "frame"), allow_cov=(tr != "frame") or draw(st.booleans()),
+                                          n_max=14 if tr in ("rename", "permute") else 8))
     alg = draw(st.sampled_from(ALGS))
     par = {}
     n = len(net["points"])
@@ -42,7 +46,27 @@ def case(draw):
         par = {"dE": draw(st.sampled_from([1000.0, -250000.5, 5000000.0, 123456.789])),
                "dN": draw(st.sampled_from([-1000.0, 1000000.25, -5000000.0, 654321.125]))}
     elif tr == "rotate_circle":
-        par = {"c": [draw(st.sampled_from(ROT)) for _ in net["clusters"]]}
+        # any angle, or the zero of the circle put on (next to) the first target: readings within the noise of 0 / 400 gon
+        par = {"c": [draw(st.sampled_from(ROT + [["target", 0.0], ["target", 2e-4], ["target", -2e-4], ["target", 1e-3]]))
+                     for _ in net["clusters"]]}
+        if draw(st.integers(0, 2)) == 0:
+            # a target (almost) on a coordinate axis through its station, 2 mm to either side: bearings within the noise
+            # of 0 / 100 / 200 / 300 / 400 gon, where the misclosure of a direction has to be wrapped on either side
+            dcl = [cl for cl in net["clusters"] if cl["k"] == "obs" and any(o["t"] == "direction" for o in cl["obs"])]
+            if dcl:
+                cl = draw(st.sampled_from(dcl))
+                t_id = [o for o in cl["obs"] if o["t"] == "direction"][0]["to"]
+                Pm = {q["id"]: q for q in net["points"]}
+                s_, t_ = Pm[cl["from"]], Pm[t_id]
+                L = max(5.0, math.hypot(t_["E"] - s_["E"], t_["N"] - s_["N"]))
+                v = draw(st.integers(0, 7))
+                ax = [(0.0, 1.0), (0.0, -1.0), (1.0, 0.0), (-1.0, 0.0)][v // 2]
+                side = 1.0 if v % 2 else -1.0
+                newE = round(s_["E"] + L * ax[0] + side * 0.002 * ax[1], 3)
+                newN = round(s_["N"] + L * ax[1] + side * 0.002 * ax[0], 3)
+                if all(math.hypot(q["E"] - newE, q["N"] - newN) > 1.0 for q in net["points"] if q["id"] != t_id):
+                    t_["E"], t_["N"] = newE, newN
+                    net["axis_target"] = True
     elif tr == "permute":
         par = {"points": draw(st.permutations(list(range(n)))),
                "clusters": draw(st.permutations(list(range(len(net["clusters"]))))),
@@ -51,6 +75,9 @@ def case(draw):
         par = {"names": draw(st.permutations(NAMES))[:n]}
     elif tr == "frame":
         par = {"axes": draw(st.sampled_from(nm.AXES)), "angles": draw(st.sampled_from(["left-handed", "right-handed"]))}
+    if draw(st.integers(0, 3)) == 0 and gen_net.apply_implicit_stdevs(draw, net):
+        # implicit standard deviations (attributes of <points-observations>); the re-expressed input may spell them out
+        par["explicit_sd"] = draw(st.booleans())
     return {"net": net, "alg": alg, "tr": tr, "par": par}
 
 
@@ -59,6 +86,11 @@ def transform(c):
     net = c["net"]
     tr, par = c["tr"], c["par"]
     n2 = copy.deepcopy(net)
+    if par.get("explicit_sd"):
+        n2.pop("implicit", None)
+        for cl in n2["clusters"]:
+            for ob in cl["obs"]:
+                ob.pop("implicit_sd", None)
     idmap = {p["id"]: p["id"] for p in net["points"]}
     if tr == "translate":
         for p in n2["points"]:
@@ -66,7 +98,12 @@ def transform(c):
             p["N"] += par["dN"]
     elif tr == "rotate_circle":
         for cl, cc in zip(n2["clusters"], par["c"]):
-            if cl["k"] == "obs":
+            if cl["k"] == "obs" and isinstance(cc, list):
+                dirs = [ob for ob in cl["obs"] if ob["t"] == "direction"]
+                if dirs:
+                    r = nm.obs_truth(n2, cl, dirs[0], nm.pmap(n2)) * nm.R2G
+                    cl["orient"] = (cl["orient"] + r - cc[1]) % 400.0
+            elif cl["k"] == "obs":
                 cl["orient"] = (cl["orient"] + cc) % 400.0
     elif tr == "permute":
         n2["points"] = [n2["points"][i] for i in par["points"]]
@@ -174,6 +211,10 @@ def oracle(c, stats):
     tr = c["tr"]
     net2, idmap = transform(c)
     stats.label("tr=" + tr)
+    if net.get("axis_target"):
+        stats.label("axis_target")
+    if net.get("implicit"):
+        stats.label("implicit_stdev", "implicit_stdev.explicit_twin" if c["par"].get("explicit_sd") else "implicit_stdev.kept")
     x1, err = run(net, c["alg"])
     if err:
         return ["base." + err]
@@ -316,7 +357,8 @@ def oracle(c, stats):
         if len(o1) != len(o2):
             fails.append("rotate_circle.orientation_count: %d vs %d" % (len(o1), len(o2)))
         else:
-            cl_obs = [(cl, cc) for cl, cc in zip(net["clusters"], c["par"]["c"]) if cl["k"] == "obs"]
+            # effective turn of each circle (an absolute setting "zero on the first target" included)
+            cl_obs = [(cl, (cl2["orient"] - cl["orient"]) % 400.0) for cl, cl2 in zip(net["clusters"], net2["clusters"]) if cl["k"] == "obs"]
             for a, b in zip(o1, o2):
                 cands = [cc for cl, cc in cl_obs if cl["from"] == a["id"]]
                 d = (b["adj"] - a["adj"]) % 400.0
